@@ -234,43 +234,99 @@ theorem process_chunking_irrelevant {o : Oracle} {f1 f2 f3 op2 : Nat} {sched1 sc
 
 /-! ### whole chunk lists -/
 
-/-- a request list run on the ring-free machine: every request to its end, all of its input consumed;
-a PROCESS request does not complete a flush -/
-inductive VRun (o : Oracle) : List (Nat × Bytes) → St → Bytes → St → Bytes → Prop
-  | nil (s : St) (out : Bytes) : VRun o [] s out s out
-  | cons {op : Nat} {chunk : Bytes} {rest : List (Nat × Bytes)} {s s' : St} {out out' : Bytes} {e : Abs} {d : Bool} :
-      VEnd o op ⟨s, out, chunk, chunk.length⟩ e d → (d = true ∨ vstep o op e = none) → e.input = [] →
-      (op = 0 → d = false) → VRun o rest e.s e.out s' out' → VRun o ((op, chunk) :: rest) s out s' out'
+/-- two final points of one trajectory are reached after the same number of steps -/
+theorem vpath_len_unique {o : Oracle} {op : Nat} {a b1 b2 : Abs} {n1 n2 : Nat}
+    (p1 : VPath o op a n1 b1) (p2 : VPath o op a n2 b2)
+    (f1 : vstep o op b1 = none ∨ ∃ y, vstep o op b1 = some y ∧ FlushStep b1 y)
+    (f2 : vstep o op b2 = none ∨ ∃ y, vstep o op b2 = some y ∧ FlushStep b2 y) : n1 = n2 := by
+  have aux : ∀ {n m : Nat} {x y : Abs}, VPath o op a n x → VPath o op a m y →
+      (vstep o op x = none ∨ ∃ z, vstep o op x = some z ∧ FlushStep x z) → ¬ (n < m) := by
+    intro n m x y px py fx hlt
+    have hm : m = n + (m - n - 1 + 1) := by omega
+    rw [hm] at py
+    have := vpath_split px py
+    cases this with
+    | cons hs' hnf _ =>
+      rcases fx with h | ⟨z, h, hfl⟩
+      · rw [h] at hs'; cases hs'
+      · rw [h] at hs'; cases hs'; exact hnf hfl
+  have h1 := aux p1 p2 f1
+  have h2 := aux p2 p1 f2
+  omega
 
-/-- the ring-free machine is deterministic on request lists -/
+theorem vend_toL {o : Oracle} {op : Nat} {a b : Abs} {d : Bool} (h : VEnd o op a b d) : ∃ log, VEndL o op a b log d := by
+  cases d with
+  | false => obtain ⟨n, p⟩ := h; exact ⟨_, n, p, rfl⟩
+  | true => obtain ⟨n, x, p, s, f⟩ := h; exact ⟨_, n, x, p, s, f, rfl⟩
+
+/-- confluence with the request lists: two final ends of one trajectory coincide, and so do the requests issued on the way -/
+theorem vendL_final_eq {o : Oracle} {op : Nat} {a b1 b2 : Abs} {l1 l2 : List Req} {d1 d2 : Bool}
+    (h1 : VEndL o op a b1 l1 d1) (h2 : VEndL o op a b2 l2 d2)
+    (f1 : d1 = true ∨ vstep o op b1 = none) (f2 : d2 = true ∨ vstep o op b2 = none) : b1 = b2 ∧ l1 = l2 := by
+  refine ⟨vend_final_eq h1.toVEnd h2.toVEnd f1 f2, ?_⟩
+  have g1 : ∃ n x, VPath o op a n x ∧ (vstep o op x = none ∨ ∃ y, vstep o op x = some y ∧ FlushStep x y) ∧ vlog o op n a = l1 := by
+    cases d1 with
+    | false =>
+      obtain ⟨n, p, hl⟩ := h1
+      exact ⟨n, b1, p, Or.inl (by rcases f1 with h | h; cases h; exact h), hl⟩
+    | true =>
+      obtain ⟨n, x, p, s, f, hl⟩ := h1
+      exact ⟨n, x, p, Or.inr ⟨b1, s, f⟩, hl⟩
+  have g2 : ∃ n x, VPath o op a n x ∧ (vstep o op x = none ∨ ∃ y, vstep o op x = some y ∧ FlushStep x y) ∧ vlog o op n a = l2 := by
+    cases d2 with
+    | false =>
+      obtain ⟨n, p, hl⟩ := h2
+      exact ⟨n, b2, p, Or.inl (by rcases f2 with h | h; cases h; exact h), hl⟩
+    | true =>
+      obtain ⟨n, x, p, s, f, hl⟩ := h2
+      exact ⟨n, x, p, Or.inr ⟨b2, s, f⟩, hl⟩
+  obtain ⟨n1, x1, p1, e1, hl1⟩ := g1
+  obtain ⟨n2, x2, p2, e2, hl2⟩ := g2
+  have := vpath_len_unique p1 p2 e1 e2
+  subst this
+  rw [← hl1, ← hl2]
+
+/-- a request list run on the ring-free machine: every request to its end, all of its input consumed;
+a PROCESS request does not complete a flush; the last index is the list of payload-encoder requests issued -/
+inductive VRun (o : Oracle) : List (Nat × Bytes) → St → Bytes → St → Bytes → List Req → Prop
+  | nil (s : St) (out : Bytes) : VRun o [] s out s out []
+  | cons {op : Nat} {chunk : Bytes} {rest : List (Nat × Bytes)} {s s' : St} {out out' : Bytes} {e : Abs} {d : Bool} {l1 l2 : List Req} :
+      VEndL o op ⟨s, out, chunk, chunk.length⟩ e l1 d → (d = true ∨ vstep o op e = none) → e.input = [] →
+      (op = 0 → d = false) → VRun o rest e.s e.out s' out' l2 → VRun o ((op, chunk) :: rest) s out s' out' (l1 ++ l2)
+
+/-- the ring-free machine is deterministic on request lists: same end, same bytes, same requests -/
 theorem vrun_det {o : Oracle} (reqs : List (Nat × Bytes)) :
-    ∀ {s s1 s2 : St} {out out1 out2 : Bytes}, VRun o reqs s out s1 out1 → VRun o reqs s out s2 out2 → s1 = s2 ∧ out1 = out2 := by
+    ∀ {s s1 s2 : St} {out out1 out2 : Bytes} {g1 g2 : List Req}, VRun o reqs s out s1 out1 g1 → VRun o reqs s out s2 out2 g2 →
+      s1 = s2 ∧ out1 = out2 ∧ g1 = g2 := by
   induction reqs with
-  | nil => intro s s1 s2 out out1 out2 h1 h2; cases h1; cases h2; exact ⟨rfl, rfl⟩
+  | nil => intro s s1 s2 out out1 out2 g1 g2 h1 h2; cases h1; cases h2; exact ⟨rfl, rfl, rfl⟩
   | cons r rest ih =>
-    intro s s1 s2 out out1 out2 h1 h2
+    intro s s1 s2 out out1 out2 g1 g2 h1 h2
     cases h1 with
     | cons v1 f1 _ _ r1 =>
       cases h2 with
       | cons v2 f2 _ _ r2 =>
-        have := vend_final_eq v1 v2 f1 f2
-        subst this
-        exact ih r1 r2
+        obtain ⟨he, hl⟩ := vendL_final_eq v1 v2 f1 f2
+        subst he
+        subst hl
+        obtain ⟨q1, q2, q3⟩ := ih r1 r2
+        exact ⟨q1, q2, by rw [q3]⟩
 
 /-- a PROCESS request at the head of a list merges into the request behind it -/
 theorem vrun_merge {o : Oracle} {op2 : Nat} {c1 c2 : Bytes} {rest : List (Nat × Bytes)} {s s' : St} {out out' : Bytes}
     (hsafe : op2 = 0 ∨ c2 ≠ [] ∨ NotBoundary s c1) (hS : VStart s (c1 ++ c2))
-    (h : VRun o ((0, c1) :: (op2, c2) :: rest) s out s' out') : VRun o ((op2, c1 ++ c2) :: rest) s out s' out' := by
+    {g : List Req} (h : VRun o ((0, c1) :: (op2, c2) :: rest) s out s' out' g) : VRun o ((op2, c1 ++ c2) :: rest) s out s' out' g := by
   cases h with
-  | @cons _ _ _ _ _ _ _ e1 d1 v1 f1 i1 hd1 r1 =>
+  | @cons _ _ _ _ _ _ _ e1 d1 l1 l23 v1 f1 i1 hd1 r1 =>
     have hd : d1 = false := hd1 rfl
     subst hd
-    obtain ⟨n1, p1⟩ := v1
+    obtain ⟨n1, p1, hl1⟩ := v1
     have t1 : vstep o 0 e1 = none := by rcases f1 with h | h; cases h; exact h
     cases r1 with
-    | @cons _ _ _ _ _ _ _ e2 d2 v2 f2 i2 hd2 r2 =>
-      have hm := vmerge (o := o) (op2 := op2) (c2 := c2) n1 s out c1 e1 p1 t1 i1 hS hsafe
-      exact .cons (vmerge_end hm v2 f2) f2 i2 hd2 r2
+    | @cons _ _ _ _ _ _ _ e2 d2 l2 l3 v2 f2 i2 hd2 r2 =>
+      have hm := merged_requests p1 t1 i1 hS hsafe v2 f2
+      rw [← List.append_assoc, ← hl1]
+      exact .cons hm f2 i2 hd2 r2
 
 def procs (cs : List Bytes) : List (Nat × Bytes) := cs.map (fun c => (0, c))
 
@@ -281,21 +337,21 @@ theorem vstart_mono {s : St} {a b : Bytes} (h : VStart s (a ++ b)) : VStart s a 
 
 /-- **any number of PROCESS chunks in front of a request merge into it** -/
 theorem vrun_merge_all {o : Oracle} {op : Nat} {c : Bytes} {rest : List (Nat × Bytes)} :
-    ∀ (cs : List Bytes) (c1 : Bytes) {s s' : St} {out out' : Bytes}, VStart s (c1 ++ cs.flatten ++ c) →
+    ∀ (cs : List Bytes) (c1 : Bytes) {s s' : St} {out out' : Bytes} {g : List Req}, VStart s (c1 ++ cs.flatten ++ c) →
       (op = 0 ∨ c ≠ [] ∨ NotBoundary s (c1 ++ cs.flatten)) →
-      VRun o ((0, c1) :: (procs cs ++ (op, c) :: rest)) s out s' out' → VRun o ((op, c1 ++ cs.flatten ++ c) :: rest) s out s' out' := by
+      VRun o ((0, c1) :: (procs cs ++ (op, c) :: rest)) s out s' out' g → VRun o ((op, c1 ++ cs.flatten ++ c) :: rest) s out s' out' g := by
   intro cs
   induction cs with
   | nil =>
-    intro c1 s s' out out' hS hsafe h
+    intro c1 s s' out out' g hS hsafe h
     simp only [procs, List.map_nil, List.nil_append, List.flatten_nil, List.append_nil] at h hS hsafe ⊢
     exact vrun_merge hsafe hS h
   | cons c2 cs ih =>
-    intro c1 s s' out out' hS hsafe h
+    intro c1 s s' out out' g hS hsafe h
     have hS' : VStart s ((c1 ++ c2) ++ cs.flatten ++ c) := by
       simpa [List.flatten_cons, List.append_assoc] using hS
     have hS2 : VStart s (c1 ++ c2) := vstart_mono (vstart_mono hS')
-    have h' : VRun o ((0, c1 ++ c2) :: (procs cs ++ (op, c) :: rest)) s out s' out' :=
+    have h' : VRun o ((0, c1 ++ c2) :: (procs cs ++ (op, c) :: rest)) s out s' out' g :=
       vrun_merge (Or.inl rfl) hS2 (by simpa [procs] using h)
     have hsafe' : op = 0 ∨ c ≠ [] ∨ NotBoundary s ((c1 ++ c2) ++ cs.flatten) := by
       simpa [List.flatten_cons, List.append_assoc] using hsafe
@@ -303,17 +359,17 @@ theorem vrun_merge_all {o : Oracle} {op : Nat} {c : Bytes} {rest : List (Nat × 
     simpa [List.flatten_cons, List.append_assoc] using this
 
 /-- **input chunking is irrelevant on the ring-free machine**: two ways of cutting the same data into
-PROCESS chunks in front of the same kind of final request (PROCESS, FLUSH or FINISH), the final
-request being empty in neither or a PROCESS, end in the same state with the same bytes -/
-theorem vrun_chunking {o : Oracle} {op : Nat} {c c' : Bytes} {cs cs' : List Bytes} {s s1 s2 : St} {out out1 out2 : Bytes}
+PROCESS chunks in front of the same kind of final request (PROCESS, FLUSH or FINISH), under the
+proviso, end in the same state with the same bytes, having issued the same payload-encoder requests -/
+theorem vrun_chunking {o : Oracle} {op : Nat} {c c' : Bytes} {cs cs' : List Bytes} {s s1 s2 : St} {out out1 out2 : Bytes} {g1 g2 : List Req}
     (hsafe : op = 0 ∨ c ≠ [] ∨ NotBoundary s cs.flatten) (hsafe' : op = 0 ∨ c' ≠ [] ∨ NotBoundary s cs'.flatten)
     (hdata : cs.flatten ++ c = cs'.flatten ++ c')
     (hS : VStart s (cs.flatten ++ c))
-    (h1 : VRun o (procs cs ++ [(op, c)]) s out s1 out1) (h2 : VRun o (procs cs' ++ [(op, c')]) s out s2 out2) :
-    s1 = s2 ∧ out1 = out2 := by
-  have key : ∀ (ds : List Bytes) (d : Bytes), (op = 0 ∨ d ≠ [] ∨ NotBoundary s ds.flatten) → VStart s (ds.flatten ++ d) → ∀ {t : St} {ot : Bytes},
-      VRun o (procs ds ++ [(op, d)]) s out t ot → VRun o [(op, ds.flatten ++ d)] s out t ot := by
-    intro ds d hs hSd t ot h
+    (h1 : VRun o (procs cs ++ [(op, c)]) s out s1 out1 g1) (h2 : VRun o (procs cs' ++ [(op, c')]) s out s2 out2 g2) :
+    s1 = s2 ∧ out1 = out2 ∧ g1 = g2 := by
+  have key : ∀ (ds : List Bytes) (d : Bytes), (op = 0 ∨ d ≠ [] ∨ NotBoundary s ds.flatten) → VStart s (ds.flatten ++ d) → ∀ {t : St} {ot : Bytes} {g : List Req},
+      VRun o (procs ds ++ [(op, d)]) s out t ot g → VRun o [(op, ds.flatten ++ d)] s out t ot g := by
+    intro ds d hs hSd t ot g h
     cases ds with
     | nil => simpa [procs] using h
     | cons d1 ds =>
@@ -341,22 +397,23 @@ theorem vstep_idle {o : Oracle} {s : St} {out : Bytes} (hS : VStart s []) (hb : 
   unfold vstep
   simp only [if_neg e0, if_neg hG.nf, if_neg e2, if_neg e3, if_neg e4, if_neg e5]
 
-theorem vrun_insert_empty {o : Oracle} {rest : List (Nat × Bytes)} {s s' : St} {out out' : Bytes}
-    (hS : VStart s []) (hb : remainingInputBlockSize s ≠ 0) (h : VRun o rest s out s' out') :
-    VRun o ((0, []) :: rest) s out s' out' :=
-  .cons (e := ⟨s, out, [], 0⟩) (d := false) ⟨0, .nil _⟩ (Or.inr (vstep_idle hS hb)) rfl (fun _ => rfl) h
+theorem vrun_insert_empty {o : Oracle} {rest : List (Nat × Bytes)} {s s' : St} {out out' : Bytes} {g : List Req}
+    (hS : VStart s []) (hb : remainingInputBlockSize s ≠ 0) (h : VRun o rest s out s' out' g) :
+    VRun o ((0, []) :: rest) s out s' out' g := by
+  have := VRun.cons (o := o) (e := ⟨s, out, [], 0⟩) (d := false) (l1 := []) ⟨0, .nil _, rfl⟩ (Or.inr (vstep_idle hS hb)) rfl (fun _ => rfl) h
+  simpa using this
 
 /-- **input chunking with an EMPTY final request** (the shape of every adapter: CompressorWriter /
 CompressorReader / BrotliCompressCustomIo only ever issue FLUSH / FINISH with `available_in == 0`):
 two ways of cutting the same data into PROCESS chunks, both followed by the same empty request,
 from a request boundary, end in the same state with the same bytes -/
-theorem vrun_chunking_empty_tail {o : Oracle} {op : Nat} {cs cs' : List Bytes} {s s1 s2 : St} {out out1 out2 : Bytes}
+theorem vrun_chunking_empty_tail {o : Oracle} {op : Nat} {cs cs' : List Bytes} {s s1 s2 : St} {out out1 out2 : Bytes} {g1 g2 : List Req}
     (hdata : cs.flatten = cs'.flatten) (hS : VStart s cs.flatten) (hb : remainingInputBlockSize s ≠ 0)
-    (h1 : VRun o (procs cs ++ [(op, [])]) s out s1 out1) (h2 : VRun o (procs cs' ++ [(op, [])]) s out s2 out2) :
-    s1 = s2 ∧ out1 = out2 := by
-  have key : ∀ (ds : List Bytes), VStart s ds.flatten → ∀ {t : St} {ot : Bytes},
-      VRun o (procs ds ++ [(op, [])]) s out t ot → VRun o [(0, ds.flatten), (op, [])] s out t ot := by
-    intro ds hSd t ot h
+    (h1 : VRun o (procs cs ++ [(op, [])]) s out s1 out1 g1) (h2 : VRun o (procs cs' ++ [(op, [])]) s out s2 out2 g2) :
+    s1 = s2 ∧ out1 = out2 ∧ g1 = g2 := by
+  have key : ∀ (ds : List Bytes), VStart s ds.flatten → ∀ {t : St} {ot : Bytes} {g : List Req},
+      VRun o (procs ds ++ [(op, [])]) s out t ot g → VRun o [(0, ds.flatten), (op, [])] s out t ot g := by
+    intro ds hSd t ot g h
     rcases List.eq_nil_or_concat ds with rfl | ⟨es, d, rfl⟩
     · simp only [procs, List.map_nil, List.nil_append, List.flatten_nil] at h ⊢
       exact vrun_insert_empty (by simpa using hSd) hb h
@@ -414,9 +471,9 @@ theorem rpath_skip_init {o : Oracle} {op : Nat} {a b : Abs} {d : Bool} (hni : a.
 facts `VGood` are about the state `ensure_initialized` makes of it — sanitised quality, chosen lgblock) -/
 theorem drivenC_vrun {o : Oracle} (reqs : List (Nat × Bytes)) :
     ∀ {s s' : St} {del del' : Bytes}, DrivenC o reqs s del s' del' → VGood (absR (ensureInitialized s) [] del) →
-      VRun o reqs (er (core (ensureInitialized s))) (del ++ s.pending) (er (core (ensureInitialized s'))) (del' ++ s'.pending) := by
+      ∃ g, VRun o reqs (er (core (ensureInitialized s))) (del ++ s.pending) (er (core (ensureInitialized s'))) (del' ++ s'.pending) g := by
   induction reqs with
-  | nil => intro s s' del del' h _; cases h; exact .nil _ _
+  | nil => intro s s' del del' h _; cases h; exact ⟨[], .nil _ _⟩
   | cons r rest ih =>
     intro s s' del del' h hG
     cases h with
@@ -451,12 +508,13 @@ theorem drivenC_vrun {o : Oracle} (reqs : List (Nat × Bytes)) :
         · exact Or.inl h
         · exact Or.inr (final_er g1 rfl h)
       have hi1 : s1.isInitialized = true := g1.init
-      have hrec := ih hr (by rw [ensureInitialized_id hi1]; exact g1)
+      obtain ⟨g2, hrec⟩ := ih hr (by rw [ensureInitialized_id hi1]; exact g1)
       rw [ensureInitialized_id hi1] at hrec
       have hp : (ensureInitialized s).pending = s.pending := ensure_pending s
       have v1' : VEnd o op ⟨er (core (ensureInitialized s)), del ++ s.pending, chunk, chunk.length⟩ (erA (absR s1 [] del1)) d1 := by
         rw [erA_absR, hp] at v1; exact v1
-      exact .cons (e := erA (absR s1 [] del1)) v1' fin rfl h0 hrec
+      obtain ⟨l1, v1L⟩ := vend_toL v1'
+      exact ⟨l1 ++ g2, .cons (e := erA (absR s1 [] del1)) v1L fin rfl h0 hrec⟩
 
 theorem core_ensure_congr {s t : St} (h : core t = core s) : core (ensureInitialized t) = core (ensureInitialized s) := by
   rw [← core_ensure t, ← core_ensure s, h]
@@ -496,7 +554,8 @@ own output-capacity / `take_output` schedule, from starts in PROCESSING that are
 BUFFER (a fresh encoder, or an initialised one; main loop, not catable, size hint set, no 64-bit wrap —
 stated of the state `ensure_initialized` makes of the start; `er_core_ensure_of_core`: abstractly equal
 starts qualify): equal core states up to the ring buffer — positions, carry, stream state, the number
-of payload-encoder invocations — and equal bytes produced.  The conclusion has the form of the
+of payload-encoder invocations — and equal bytes produced; and the two histories' runs of the ring-free
+machine (third conjunct) issue THE SAME LIST `g` of payload-encoder requests.  The first two conjuncts have the form of the
 hypothesis, so the theorem chains over FLUSH-separated segments: histories with the same FLUSH points
 whose segments are cut differently agree segment by segment.
 (`ensureInitialized` in the conclusion is the identity: the end states are initialised.) -/
@@ -510,14 +569,20 @@ theorem chunking_irrelevant {o : Oracle} {op : Nat} {c c' : Bytes} {cs cs' : Lis
     (hout : delt ++ t.pending = del ++ s.pending)
     (h1 : DrivenC o (procs cs ++ [(op, c)]) s del s' del')
     (h2 : DrivenC o (procs cs' ++ [(op, c')]) t delt t' delt') :
-    er (core (ensureInitialized s')) = er (core (ensureInitialized t')) ∧ del' ++ s'.pending = delt' ++ t'.pending := by
+    er (core (ensureInitialized s')) = er (core (ensureInitialized t')) ∧ del' ++ s'.pending = delt' ++ t'.pending
+    ∧ ∃ g, VRun o (procs cs ++ [(op, c)]) (er (core (ensureInitialized s))) (del ++ s.pending)
+              (er (core (ensureInitialized s'))) (del' ++ s'.pending) g
+         ∧ VRun o (procs cs' ++ [(op, c')]) (er (core (ensureInitialized s))) (del ++ s.pending)
+              (er (core (ensureInitialized t'))) (delt' ++ t'.pending) g := by
   obtain ⟨hG0, hGt⟩ := vgood_transfer (delt := delt) hcore hG
-  have v1 := drivenC_vrun _ h1 hG0
-  have v2 := drivenC_vrun _ h2 hGt
+  obtain ⟨g1, v1⟩ := drivenC_vrun _ h1 hG0
+  obtain ⟨g2, v2⟩ := drivenC_vrun _ h2 hGt
   rw [hcore, hout] at v2
   have hS : VStart (er (core (ensureInitialized s))) (cs.flatten ++ c) :=
     ⟨⟨hG.init, hG.nf, hG.ncat, hG.hint, hG.bs, hG.nowrap, rfl⟩, (ensure_state s).trans hproc, vpos_of_inv (inv_ensure hI)⟩
-  exact vrun_chunking (s := er (core (ensureInitialized s))) hsafe hsafe' hdata hS v1 v2
+  obtain ⟨q1, q2, q3⟩ := vrun_chunking (s := er (core (ensureInitialized s))) hsafe hsafe' hdata hS v1 v2
+  subst q3
+  exact ⟨q1, q2, g1, v1, v2⟩
 
 /-- **chunking_irrelevant_empty_tail** (model, any output schedules): the adapters' shape — any two ways
 of cutting the same data into PROCESS chunks, both followed by the same EMPTY FLUSH / FINISH request,
@@ -532,14 +597,20 @@ theorem chunking_irrelevant_empty_tail {o : Oracle} {op : Nat} {cs cs' : List By
     (hout : delt ++ t.pending = del ++ s.pending)
     (h1 : DrivenC o (procs cs ++ [(op, [])]) s del s' del')
     (h2 : DrivenC o (procs cs' ++ [(op, [])]) t delt t' delt') :
-    er (core (ensureInitialized s')) = er (core (ensureInitialized t')) ∧ del' ++ s'.pending = delt' ++ t'.pending := by
+    er (core (ensureInitialized s')) = er (core (ensureInitialized t')) ∧ del' ++ s'.pending = delt' ++ t'.pending
+    ∧ ∃ g, VRun o (procs cs ++ [(op, [])]) (er (core (ensureInitialized s))) (del ++ s.pending)
+              (er (core (ensureInitialized s'))) (del' ++ s'.pending) g
+         ∧ VRun o (procs cs' ++ [(op, [])]) (er (core (ensureInitialized s))) (del ++ s.pending)
+              (er (core (ensureInitialized t'))) (delt' ++ t'.pending) g := by
   obtain ⟨hG0, hGt⟩ := vgood_transfer (delt := delt) hcore hG
-  have v1 := drivenC_vrun _ h1 hG0
-  have v2 := drivenC_vrun _ h2 hGt
+  obtain ⟨g1, v1⟩ := drivenC_vrun _ h1 hG0
+  obtain ⟨g2, v2⟩ := drivenC_vrun _ h2 hGt
   rw [hcore, hout] at v2
   have hS : VStart (er (core (ensureInitialized s))) cs.flatten :=
     ⟨⟨hG.init, hG.nf, hG.ncat, hG.hint, hG.bs, hG.nowrap, rfl⟩, (ensure_state s).trans hproc, vpos_of_inv (inv_ensure hI)⟩
-  exact vrun_chunking_empty_tail hdata hS hb v1 v2
+  obtain ⟨q1, q2, q3⟩ := vrun_chunking_empty_tail hdata hS hb v1 v2
+  subst q3
+  exact ⟨q1, q2, g1, v1, v2⟩
 
 /-! ### the counter-example at a block boundary (model, fresh encoder, quality 2, size hint set) -/
 
